@@ -229,21 +229,20 @@ func (e *WrappedErr) Unwrap() error { return e.Inner }
 // ---------------------------------------------------------------- meter
 
 // Meter measures bytes allocated and thread CPU time of one call. The
+// allocation figure comes from runtime.ReadMemStats (TotalAlloc), which
+// flushes the per-P allocation caches and is therefore exact per call (the
+// cheaper runtime/metrics counter lags by up to a few hundred KiB). The
 // calling goroutine must be locked to its OS thread for the CPU figure to be
 // meaningful (LockThread).
 type Meter struct {
-	s       [1]metrics.Sample
+	ms      runtime.MemStats
 	alloc0  uint64
 	cpu0    int64
 	Alloc   uint64 // bytes allocated during the call
 	CPUNano int64  // thread CPU time of the call
 }
 
-func NewMeter() *Meter {
-	m := &Meter{}
-	m.s[0].Name = "/gc/heap/allocs:bytes"
-	return m
-}
+func NewMeter() *Meter { return &Meter{} }
 
 // LockThread pins the goroutine to its thread (call once per worker goroutine).
 func LockThread() { runtime.LockOSThread() }
@@ -257,15 +256,15 @@ func threadCPU() int64 {
 }
 
 func (m *Meter) Start() {
-	metrics.Read(m.s[:])
-	m.alloc0 = m.s[0].Value.Uint64()
+	runtime.ReadMemStats(&m.ms)
+	m.alloc0 = m.ms.TotalAlloc
 	m.cpu0 = threadCPU()
 }
 
 func (m *Meter) Stop() {
 	m.CPUNano = threadCPU() - m.cpu0
-	metrics.Read(m.s[:])
-	m.Alloc = m.s[0].Value.Uint64() - m.alloc0
+	runtime.ReadMemStats(&m.ms)
+	m.Alloc = m.ms.TotalAlloc - m.alloc0
 }
 
 // LiveHeap returns the bytes of live (and not yet swept) heap objects.
